@@ -1,15 +1,16 @@
 ------------------------------ MODULE Trace_Stave ------------------------------
 EXTENDS ItsStave, TLC, Json, IOUtils
 Rec == ndJsonDeserialize(IOEnv.TRACE)
-VARIABLES l, st, panicked, exp, obs, period
-tvars == << l, st, panicked, exp, obs, period >>
+VARIABLES l, st, panicked, exp, obs, period, custom
+tvars == << l, st, panicked, exp, obs, period, custom >>
 Count(x, s) == Cardinality({i \in 1..Len(s) : s[i] = x})
 SameBag(a, b) == Len(a) = Len(b) /\ \A i \in 1..Len(a) : Count(a[i], a) = Count(a[i], b)
-Get(k) == IF k \in DOMAIN st THEN st[k] ELSE [StaveInit EXCEPT !.ck.period = period]
+Get(k) == IF k \in DOMAIN st THEN st[k] ELSE [StaveInit EXCEPT !.ck.period = period, !.fr.custom = custom]
 Put(k, v) == [x \in DOMAIN st \cup {k} |-> IF x = k THEN v ELSE st[x]]
-Init == l = 1 /\ st = [k \in {} |-> StaveInit] /\ panicked = FALSE /\ exp = << >> /\ obs = << >> /\ period = NoPeriod
+Init == l = 1 /\ st = [k \in {} |-> StaveInit] /\ panicked = FALSE /\ exp = << >> /\ obs = << >> /\ period = NoPeriod /\ custom = NoCustom
 IsEvent(k) == l <= Len(Rec) /\ Rec[l].e = k /\ l' = l + 1
 TraceCfg == IsEvent("Cfg") /\ st' = [k \in {} |-> StaveInit] /\ panicked' = FALSE /\ exp' = << >> /\ obs' = << >> /\ period' = Rec[l].period
+            /\ custom' = (IF "custom" \in DOMAIN Rec[l] THEN Rec[l].custom ELSE NoCustom)
 TracePkt == /\ IsEvent("Pkt")
             /\ LET ev == Rec[l]
                    key == U16(ev.rdh, 2)
@@ -17,7 +18,7 @@ TracePkt == /\ IsEvent("Pkt")
                IN /\ exp' = IF panicked THEN exp ELSE exp \o res.errs
                   /\ obs' = obs \o ev.errs
                   /\ st' = Put(key, res.st)
-                  /\ panicked' = (panicked \/ res.panic) /\ UNCHANGED period
+                  /\ panicked' = (panicked \/ res.panic) /\ UNCHANGED << period, custom >>
 TraceEnd == /\ IsEvent("End")
             /\ IF (Rec[l].rc = 134) = panicked THEN TRUE ELSE PrintT("REJECT " \o ToJson([l |-> l, tag |-> "end", expected |-> panicked, observed |-> Rec[l].rc]))
             /\ IF panicked \/ SameBag(exp, obs) THEN TRUE
@@ -29,7 +30,7 @@ TraceEnd == /\ IsEvent("End")
                        want == Tot(DOMAIN st)
                    IN IF panicked \/ want = Rec[l].flags THEN TRUE
                       ELSE PrintT("REJECT " \o ToJson([l |-> l, tag |-> "flags", expected |-> want, observed |-> Rec[l].flags])))
-            /\ UNCHANGED << st, panicked, exp, obs, period >>
+            /\ UNCHANGED << st, panicked, exp, obs, period, custom >>
 Next == TraceCfg \/ TracePkt \/ TraceEnd
 Spec == Init /\ [][Next]_tvars
 Accepted == IF TLCGet("stats").diameter - 1 = Len(Rec) THEN TRUE
